@@ -358,15 +358,21 @@ Definition ser_obs (o : obs) : list nat :=
    H5Writer.save_entity(root, add_children=True) finds every attached entity already stored: no other change *)
 Definition close_effect (w : st) : st := fst (step pinned w (OList KGroup)).
 
-(* everything the driver records for a history: the per-operation observations, the raw dump after close, the view after a
-   fresh re-open, and the outcomes (1 = success) of copying each re-loaded object *)
-Definition trace (c : cfg) (h : list op) : list nat :=
-  let (l, w0) := run_obs c init h in
+(* The per-operation observations are compared through a digest (polynomial hash modulo the Mersenne prime 2^61-1 of the
+   serialised observation; the driver computes the same digest): a case file then carries one number per operation
+   instead of the whole state.  The state after close / re-open and the copy outcomes are compared verbatim. *)
+Definition hmod : N := 2305843009213693951%N.
+Definition hstep (h : N) (x : nat) : N := ((h * 1000003 + N.of_nat x + 1) mod hmod)%N.
+Definition digest (l : list nat) : N := fold_left hstep l 7%N.
+
+Definition final_trace (w0 : st) : list nat :=
   let w := close_effect w0 in
-  length l :: flat_map ser_obs l
-  ++ ser_list (obs_flat w) ++ ser_links (obs_links w) ++ ser_grps (obs_fpg w)
+  ser_list (obs_flat w) ++ ser_links (obs_links w) ++ ser_grps (obs_fpg w)
   ++ ser_mem (reopen_view w)
   ++ ser_reg (map (fun x => (x, copy_ok w x))
                   (filter (fun x => kind_eqb (ekind (E w x)) KObject) (map fst (reopen_view w)))).
 
-Definition agree (c : cfg) (h : list op) (observed : list nat) : bool := list_eqb Nat.eqb (trace c h) observed.
+Definition agree (c : cfg) (h : list op) (digests : list N) (final : list nat) : bool :=
+  let (l, w0) := run_obs c init h in
+  list_eqb N.eqb (map (fun o => digest (ser_obs o)) l) digests
+  && list_eqb Nat.eqb (final_trace w0) final.
